@@ -213,7 +213,41 @@ fn typed_sync(ctx: &mut sync::Context, op: &TypedOp) -> String {
     }
 }
 
-/// `sync <kind> <slave|-> [to=<ms>] | op | op …`
+/// the ten typed methods of the asynchronous context over a real socket
+fn typed_async(rt: &tokio::runtime::Runtime, ctx: &mut tokio_modbus::client::Context, op: &TypedOp) -> String {
+    use tokio_modbus::client::{Reader, Writer};
+    fn m<T>(r: tokio_modbus::Result<T>, f: impl Fn(&T) -> String) -> String {
+        match r {
+            Ok(Ok(v)) => format!("ok {}", f(&v)),
+            Ok(Err(e)) => format!("exc {}", hex8(e.into())),
+            Err(e) => crate::wire::error(&e),
+        }
+    }
+    let b = |v: &Vec<bool>| format!("bits:{}", bits(v));
+    let w = |v: &Vec<u16>| format!("words:{}", words(v));
+    let u = |_: &()| "unit".to_string();
+    match op {
+        TypedOp::Rc(a, c) => m(rt.block_on(ctx.read_coils(*a, *c)), b),
+        TypedOp::Rdi(a, c) => m(rt.block_on(ctx.read_discrete_inputs(*a, *c)), b),
+        TypedOp::Rhr(a, c) => m(rt.block_on(ctx.read_holding_registers(*a, *c)), w),
+        TypedOp::Rir(a, c) => m(rt.block_on(ctx.read_input_registers(*a, *c)), w),
+        TypedOp::Rwm(ra, c, wa, ws) => m(rt.block_on(ctx.read_write_multiple_registers(*ra, *c, *wa, ws)), w),
+        TypedOp::Wsc(a, v) => m(rt.block_on(ctx.write_single_coil(*a, *v)), u),
+        TypedOp::Wsr(a, v) => m(rt.block_on(ctx.write_single_register(*a, *v)), u),
+        TypedOp::Wmc(a, cs) => m(rt.block_on(ctx.write_multiple_coils(*a, cs)), u),
+        TypedOp::Wmr(a, ws) => m(rt.block_on(ctx.write_multiple_registers(*a, ws)), u),
+        TypedOp::Mwr(a, am, om) => m(rt.block_on(ctx.masked_write_register(*a, *am, *om)), u),
+    }
+}
+
+/// blocking context, or (option `async`) the asynchronous context connected with
+/// `client::tcp::connect[_slave]` over a real socket and driven by `block_on`
+enum AnyCtx {
+    Sync(sync::Context),
+    Async(tokio::runtime::Runtime, tokio_modbus::client::Context),
+}
+
+/// `sync <kind> <slave|-> [to=<ms>] [async] | op | op …`
 pub fn sync_op(kind: &str, slave: &str, opts: &[&str], ops: &[&str]) -> Option<(String, String)> {
     let timeout = match field("to", opts) {
         "" => None,
@@ -230,9 +264,10 @@ pub fn sync_op(kind: &str, slave: &str, opts: &[&str], ops: &[&str]) -> Option<(
     }
     let received: Arc<Mutex<Vec<Vec<u8>>>> = Default::default();
     let (go_tx, go_rx) = std::sync::mpsc::channel::<()>();
-    let mut ctx: sync::Context;
+    let mut ctx: AnyCtx;
     let peer;
-    if kind == "tcp" {
+    let use_async = opts.contains(&"async");
+    if kind == "tcp" && use_async {
         let listener = StdListener::bind("127.0.0.1:0").ok()?;
         let addr = listener.local_addr().ok()?;
         let rec = received.clone();
@@ -241,23 +276,38 @@ pub fn sync_op(kind: &str, slave: &str, opts: &[&str], ops: &[&str]) -> Option<(
                 run_peer(Box::new(s), steps, rec, go_rx);
             }
         });
-        ctx = match (slave, timeout) {
+        let rt = tokio::runtime::Builder::new_current_thread().enable_all().build().ok()?;
+        let c = match slave {
+            "-" => rt.block_on(tokio_modbus::client::tcp::connect(addr)).ok()?,
+            s => rt.block_on(tokio_modbus::client::tcp::connect_slave(addr, Slave(p_u8(s)?))).ok()?,
+        };
+        ctx = AnyCtx::Async(rt, c);
+    } else if kind == "tcp" {
+        let listener = StdListener::bind("127.0.0.1:0").ok()?;
+        let addr = listener.local_addr().ok()?;
+        let rec = received.clone();
+        peer = std::thread::spawn(move || {
+            if let Ok((s, _)) = listener.accept() {
+                run_peer(Box::new(s), steps, rec, go_rx);
+            }
+        });
+        ctx = AnyCtx::Sync(match (slave, timeout) {
             ("-", None) => sync::tcp::connect(addr).ok()?,
             ("-", t) => sync::tcp::connect_with_timeout(addr, t).ok()?,
             (s, None) => sync::tcp::connect_slave(addr, Slave(p_u8(s)?)).ok()?,
             (s, t) => sync::tcp::connect_slave_with_timeout(addr, Slave(p_u8(s)?), t).ok()?,
-        };
+        });
     } else {
         let (master, path) = open_pty()?;
         let rec = received.clone();
         peer = std::thread::spawn(move || run_peer(Box::new(PtyMaster(master, 2000)), steps, rec, go_rx));
         let builder = tokio_serial::new(path, 115_200);
-        ctx = match (slave, timeout) {
+        ctx = AnyCtx::Sync(match (slave, timeout) {
             ("-", None) => sync::rtu::connect(&builder).ok()?,
             ("-", t) => sync::rtu::connect_with_timeout(&builder, t).ok()?,
             (s, None) => sync::rtu::connect_slave(&builder, Slave(p_u8(s)?)).ok()?,
             (s, t) => sync::rtu::connect_slave_with_timeout(&builder, Slave(p_u8(s)?), t).ok()?,
-        };
+        });
     }
     let mut outs = vec![];
     for op in ops {
@@ -265,18 +315,34 @@ pub fn sync_op(kind: &str, slave: &str, opts: &[&str], ops: &[&str]) -> Option<(
         let res = match f.as_slice() {
             ["call", req, ..] => {
                 let _ = go_tx.send(());
-                let r = ctx.call(p_request(req)?);
+                let r = match &mut ctx {
+                    AnyCtx::Sync(c) => c.call(p_request(req)?),
+                    AnyCtx::Async(rt, c) => {
+                        use tokio_modbus::client::Client as _;
+                        rt.block_on(c.call(p_request(req)?))
+                    }
+                };
                 Some(call_result(&r))
             }
             ["typed", top, ..] => {
                 let _ = go_tx.send(());
-                Some(typed_sync(&mut ctx, &TypedOp::parse(top)?))
+                Some(match &mut ctx {
+                    AnyCtx::Sync(c) => typed_sync(c, &TypedOp::parse(top)?),
+                    AnyCtx::Async(rt, c) => typed_async(rt, c, &TypedOp::parse(top)?),
+                })
             }
             ["slave", id, ..] => {
-                ctx.set_slave(Slave(p_u8(id)?));
+                match &mut ctx {
+                    AnyCtx::Sync(c) => c.set_slave(Slave(p_u8(id)?)),
+                    AnyCtx::Async(_, c) => {
+                        use tokio_modbus::slave::SlaveContext as _;
+                        c.set_slave(Slave(p_u8(id)?))
+                    }
+                }
                 None
             }
             ["timeout", v, ..] => {
+                let AnyCtx::Sync(ctx) = &mut ctx else { return None };
                 // set_timeout / reset_timeout, read back through the getter
                 let want = if *v == "-" { None } else { Some(Duration::from_millis(v.parse().ok()?)) };
                 match want {
